@@ -241,6 +241,21 @@ def op_decline(w, op):
     w.events.append({'k': 'pr', 'id': pr.id, 'why': 'declined'})
 
 
+def op_retitle(w, op):
+    """The author edits the title of the pull request."""
+    pr = user_pr(w, op.get('p'))
+    if pr is None or pr.status != 'OPEN':
+        return
+    hp = w.host_pr(pr.id, pr.author)
+    if hp is None:
+        return
+    if not hasattr(w, 'old_titles'):
+        w.old_titles = {}
+    w.old_titles.setdefault(int(pr.id), []).append(hp.title)
+    hp['title'] = op.get('title', 'a better title')
+    w.events.append({'k': 'pr', 'id': pr.id, 'why': 'retitled'})
+
+
 def op_delete_src(w, op):
     pr = user_pr(w, op.get('p'))
     if pr is None or pr.src_branch not in w.heads():
@@ -670,6 +685,7 @@ APPLY = {
     'rebase': op_rebase, 'merge_dst': op_merge_dst,
     'reset_src': op_reset_src, 'decline': op_decline,
     'delete_src': op_delete_src, 'wcommit': op_wcommit,
+    'retitle': op_retitle,
     'delete_w': op_delete_w, 'ff_dst': op_ff_dst,
     'approve': _review('approve'),
     'request_changes': _review('request_changes'),
